@@ -2,7 +2,7 @@
    Corr/C04 C05 C06 C07 C14).  A case is one history the harness ran on the real engine,
    the canonical dump the implementation gave after every step, and the dump of the
    harness's own reference graph (the Rust transcription of the spec `S`) after every step. *)
-From NDB Require Export Engine.Graph Engine.Model Corr.Common.
+From NDB Require Export Engine.Graph Engine.Model Engine.Known Corr.Common.
 
 Definition props_eqb (a b : props) : bool := list_eqb nk_eqb a b.
 (* lookup_internal_id is not reachable through nervusdb::Db: histories run through Db carry NOLK *)
@@ -22,7 +22,8 @@ Definition dump_eqb (a b : dump) : bool :=
 Record hcase := {
   hist : list hop;
   impl_dumps : list dump;      (* implementation, after every step *)
-  ref_dumps : list dump        (* harness reference graph (spec S), after every step; vectors = impl's *)
+  ref_dumps : list dump;       (* harness reference graph (spec S), after every step; vectors = impl's *)
+  impl_classes : list bool     (* the harness's known-finding class predicates on the whole history *)
 }.
 
 (* spec dumps after every step, names resolved with the model's interner at that point *)
@@ -35,7 +36,8 @@ Fixpoint spec_dumps (s : state) (g : graph) (h : list hop) : list dump :=
 
 Definition hcase_ok (c : hcase) : bool :=
   list_eqb dump_eqb (run_dumps s0 c.(hist)) c.(impl_dumps)
-  && list_eqb dump_eqb (spec_dumps s0 g0 c.(hist)) c.(ref_dumps).
+  && list_eqb dump_eqb (spec_dumps s0 g0 c.(hist)) c.(ref_dumps)
+  && list_eqb Bool.eqb (cls_list (classes c.(hist))) c.(impl_classes).
 
 (* C30: one node/edge list loaded both ways *)
 Record bcase := {
